@@ -480,6 +480,12 @@ func (c *Cursor) Filter(ctx context.Context, idxStr string, val []interface{}) e
 		}
 	}
 	var err error
+	if c.t.Tree.Root.Size() == 0 {
+		// nothing to scan; positioning a cursor at the maximum of an
+		// empty tree leaves it at index -1 and reading it panics
+		c.eof = true
+		return nil
+	}
 	c.cursor, err = c.t.Tree.Root.Cursor(ctx)
 	if err != nil {
 		return fmt.Errorf("cursor: %w", err)
